@@ -116,6 +116,15 @@ func vProbeMap(m Map[int, int], r *vRefMap, what string) {
 	} else {
 		vAssert(got == 0 && m.Get(y) == 0, what+": Get of an absent key is zero")
 	}
+	// re-seeking an iterator that is already positioned behaves like a fresh Seek
+	for _, old := range []*Iter[int, int]{m.First(), m.Last()} {
+		re := old.Seek(y)
+		vAssert(re == old, what+": Iter.Seek returns its receiver")
+		vAssert(re.IsValid() == (pos < len(r.es)), what+": re-Seek of a positioned iterator is valid iff some key >= target")
+		if pos < len(r.es) {
+			vAssert(re.Key() == r.es[pos].k, what+": re-Seek of a positioned iterator lands on the first key >= target")
+		}
+	}
 	// Seek(y): first key >= y (in the map's order)
 	it := m.Seek(y)
 	vAssert(it.IsValid() == (pos < len(r.es)), what+": Seek is valid iff some key >= target")
